@@ -111,6 +111,8 @@ pub fn p_254<S: Src>(s: &mut S) { fixed::<S, 200, 54>(s, true) }
 pub fn p_253<S: Src>(s: &mut S) { fixed::<S, 0, 253>(s, true) }
 pub fn p_254b<S: Src>(s: &mut S) { fixed::<S, 254, 0>(s, true) }
 pub fn p_255<S: Src>(s: &mut S) { fixed::<S, 100, 155>(s, true) }
+/// The longest prefix a PRIV item can carry (254 bytes, empty value).
+pub fn p_254c<S: Src>(s: &mut S) { fixed::<S, 0, 254>(s, true) }
 
 /// Owned items (`add_item_owned`, `into_owned`) round-trip like borrowed ones.
 pub fn owned<S: Src>(s: &mut S) {
@@ -141,7 +143,7 @@ common::register! {
     t_2x1 = s_2x1 => 3,
     t_owned = owned => 2,
     q_255 = f_255 => 2,
-    q_p254 = p_254 => 2,
+    t_p254 = p_254 => 2,
     t_2x21 = s_2x21 => 3,
     t_2x01 = s_2x01 => 3,
     t_3x1 = s_3x1 => 4,
@@ -151,7 +153,8 @@ common::register! {
     t_253 = f_253 => 2,
     t_252 = f_252 => 2,
     t_256 = f_256 => 2,
-    t_p253 = p_253 => 2,
+    q_p253 = p_253 => 2,
+    q_p254c = p_254c => 2,
     t_p254b = p_254b => 2,
     t_p255 = p_255 => 2,
 }
